@@ -2,7 +2,7 @@ import N0Verif.Proofs.XPathTermPot
 /-!
   C04, termination of the resolver — part 4: **the dict-side search ends** (`term_main`).
 
-  For every token list without `new()`, on a tree whose keys are plain names without `new()`,
+  For every token list without `new()`, on a tree whose keys are plain names,
   `findD` run with fuel `≥ termPot H W toks (height of the current node) (pieces of found)` does not
   answer `OutOfFuel` and returns the root unchanged.  Strong induction on the fuel; the `[*]`, `*` and
   implicit fan-out loops are the macro steps of part 1, the re-resolutions of `found` (empty token
@@ -11,17 +11,16 @@ import N0Verif.Proofs.XPathTermPot
 namespace N0.XPath
 open N0 N0.Py N0.Val
 
-/-- what is assumed about the tree: bounds `H`, `W` and plain keys without `new()` -/
+/-- what is assumed about the tree: bounds `H`, `W` and plain keys -/
 structure TermCtx (H W : Nat) (root : Val) : Prop where
   hW : 1 ≤ W
   hgt : termHgt root ≤ H
   wd : termWd root ≤ W
   plain : SafeKeys PlainKey root
-  safe : SafeKeys NoNew root
 
 def TermS2 (H W : Nat) (root : Val) (sp : Pos) (rl : Bool) (fuel : Nat) : Prop :=
   ∀ (entry : Bool) (toks : List Str) (par : PRef) (found : Str) (g : Nat),
-    (∀ t ∈ toks, NoNew t) → NoNew found → SafeRef NoNew root par →
+    (∀ t ∈ toks, NoNew t) →
     SafeRef PlainKey root par → TermRef H W root par → TermFound found g →
     termPot H W toks (termHgtRef root par) g ≤ fuel →
     TermOut (fun _ => True) root (findD fuel root sp false entry toks par rl found)
@@ -75,8 +74,8 @@ variable {H W : Nat} {root : Val}
 theorem term_star_loop (sp : Pos) (rl : Bool) (f : Nat)
     (ih : ∀ m, m < f → TermS2 H W root sp rl m)
     (par' : PRef) (c : Cls) (xs : List Val) (hpv' : valOf root par' = some (.list c xs))
-    (hN : SafeRef NoNew root par') (hK : SafeRef PlainKey root par') (hB : TermRef H W root par')
-    (rest : List Str) (hrest : ∀ t ∈ rest, NoNew t) (found : Str) (hfN : NoNew found) (g : Nat) (hfd : TermFound found g)
+    (hK : SafeRef PlainKey root par') (hB : TermRef H W root par')
+    (rest : List Str) (hrest : ∀ t ∈ rest, NoNew t) (found : Str) (g : Nat) (hfd : TermFound found g)
     (all : List Str) (hc : Nat) (hhc : termHgt (.list c xs) - 1 ≤ hc)
     (hf : termPot H W rest hc (g + 1) + xs.length + 2 ≤ f) :
     TermOut (fun _ => True) root (starIdx f root sp false xs.length 0 rest par' rl found [] Option.none all) := by
@@ -97,7 +96,7 @@ theorem term_star_loop (sp : Pos) (rl : Bool) (f : Nat)
   · rw [he]; exact ⟨rfl, trivial⟩
   · rw [he]
     have hch := termHgtRef_child (root := root) (r := par'') (.idx n) (hB _ hpv') hpv'
-    refine ih f'' (by omega) false rest _ _ (g + 1) hrest (P_found_idx hfN (P_intStr _)) (SafeRef_child hN _)
+    refine ih f'' (by omega) false rest _ _ (g + 1) hrest
       (SafeRef_child hK _) (TermRef_child hB _) (hfd.idx _) ?_
     have := termPot_mono H W rest _ hc (g + 1) (g + 1) (show termHgtRef root (childRef root par'' (.idx n)) ≤ hc by omega)
       (Nat.le_refl _)
@@ -105,7 +104,7 @@ theorem term_star_loop (sp : Pos) (rl : Bool) (f : Nat)
 
 theorem term_main_step (ctx : TermCtx H W root) (sp : Pos) (rl : Bool) (fuel : Nat)
     (ih : ∀ m, m < fuel → TermS2 H W root sp rl m) : TermS2 H W root sp rl fuel := by
-  intro entry toks par found g htoks hfN hparN hparK hparB hfd hfuel
+  intro entry toks par found g htoks hparK hparB hfd hfuel
   have hW := ctx.hW
   obtain ⟨f, rfl⟩ : ∃ f, fuel = f + 1 := ⟨fuel - 1, by have := termPot_pos H W toks (termHgtRef root par) g; omega⟩
   cases toks with
@@ -134,12 +133,11 @@ theorem term_main_step (ctx : TermCtx H W root) (sp : Pos) (rl : Bool) (fuel : N
     | some pv =>
       have hb : TermBnd H W pv := hparB pv hpv
       have hpvK : SafeKeys PlainKey pv := hparK pv hpv
-      have hpvN : SafeKeys NoNew pv := hparN pv hpv
       rw [termHgtRef_some hpv] at hfuel
       -- children of the current node
-      have hchild : ∀ s, SafeRef NoNew root (childRef root par s) ∧ SafeRef PlainKey root (childRef root par s) ∧
+      have hchild : ∀ s, SafeRef PlainKey root (childRef root par s) ∧
           TermRef H W root (childRef root par s) ∧ termHgtRef root (childRef root par s) ≤ termHgt pv - 1 :=
-        fun s => ⟨SafeRef_child hparN s, SafeRef_child hparK s, TermRef_child hparB s, termHgtRef_child s hb hpv⟩
+        fun s => ⟨SafeRef_child hparK s, TermRef_child hparB s, termHgtRef_child s hb hpv⟩
       cases hsplit : splitNameIndex tok with
       | error e =>
         rw [findD]
@@ -159,8 +157,8 @@ theorem term_main_step (ctx : TermCtx H W root) (sp : Pos) (rl : Bool) (fuel : N
           refine term_fanout termFstClosed_true root sp false rl (tok :: rest) (by simp) par found cls xs hpv M f ?_ trivial f
             (by omega) (Nat.le_refl _)
           intro j hj f' hf' hf'F
-          obtain ⟨h1, h2, h3, h4⟩ := hchild (.idx j)
-          exact ih f' (by omega) false (tok :: rest) _ _ (g + 1) htoks (P_found_idx hfN (P_natStr j)) h1 h2 h3
+          obtain ⟨h2, h3, h4⟩ := hchild (.idx j)
+          exact ih f' (by omega) false (tok :: rest) _ _ (g + 1) htoks h2 h3
             (hfd.idx (j : Int)) (by have := hM _ h4; omega)
         by_cases hne : name = []
         · -- ####### a token without a name #######
@@ -193,14 +191,14 @@ theorem term_main_step (ctx : TermCtx H W root) (sp : Pos) (rl : Bool) (fuel : N
                 · cases pv <;> simp only [isList, Bool.false_eq_true] at hl
                   rename_i cls xs
                   have hlen : xs.length ≤ W := by have := hb.wd; simp only [termWd] at this; omega
-                  exact term_star_loop sp rl f (fun m hm => ih m (by omega)) par cls xs hpv hparN hparK hparB rest hrest found hfN g hfd
+                  exact term_star_loop sp rl f (fun m hm => ih m (by omega)) par cls xs hpv hparK hparB rest hrest found g hfd
                     _ (termHgt (Val.list cls xs)) (by omega) (by omega)
                 · have hl' : isList pv = false := by simpa using hl
                   have hw : valOf root (.wrap par) = some (Val.list .plain [pv]) := by simp [valOf, hpv]
                   have hgoal : TermOut (fun _ => True) root
                       (starIdx f root sp false 1 0 rest (.wrap par) rl found [] Option.none (tok :: rest)) :=
-                    term_star_loop sp rl f (fun m hm => ih m (by omega)) (.wrap par) .plain [pv] hw (SafeRef_wrap hparN)
-                      (SafeRef_wrap hparK) (TermRef_wrap hW hparB hpv hl') rest hrest found hfN g hfd _ (termHgt pv)
+                    term_star_loop sp rl f (fun m hm => ih m (by omega)) (.wrap par) .plain [pv] hw
+                      (SafeRef_wrap hparK) (TermRef_wrap hW hparB hpv hl') rest hrest found g hfd _ (termHgt pv)
                       (by simp [termHgt, termHgtL]) (by simp only [List.length_singleton]; omega)
                   cases pv <;> first | (simp [isList] at hl'; done) | exact hgoal
               · -- pure index
@@ -224,10 +222,6 @@ theorem term_main_step (ctx : TermCtx H W root) (sp : Pos) (rl : Bool) (fuel : N
                       rcases hp with ⟨_, rfl⟩ | ⟨_, rfl⟩
                       · exact hparK
                       · exact SafeRef_wrap hparK
-                    have hN' : SafeRef NoNew root par' := by
-                      rcases hp with ⟨_, rfl⟩ | ⟨_, rfl⟩
-                      · exact hparN
-                      · exact SafeRef_wrap hparN
                     rcases hcases with ⟨e, he, hne'⟩ | ⟨v, nf, he⟩ | ⟨n, hrne, he⟩
                     · rw [he]; exact TermOut_err hne'
                     · rw [he]; exact ⟨rfl, trivial⟩
@@ -237,7 +231,7 @@ theorem term_main_step (ctx : TermCtx H W root) (sp : Pos) (rl : Bool) (fuel : N
                         split
                         · rename_i c hc; exact (hchild' n c hc).1
                         · omega
-                      refine ih f (by omega) false rest _ _ (g + 1) hrest (P_found_idx hfN (P_intStr i)) (SafeRef_child hN' _)
+                      refine ih f (by omega) false rest _ _ (g + 1) hrest
                         (SafeRef_child hK' _) (TermRef_child hpar' _) (hfd.idx i) ?_
                       have := hC _ _ (g + 1) (g + 1) hch (Nat.le_refl _)
                       omega
@@ -266,7 +260,7 @@ theorem term_main_step (ctx : TermCtx H W root) (sp : Pos) (rl : Bool) (fuel : N
                     · split at heq
                       · cases heq; exact TermOut_err (by decide)
                       · cases heq
-                  · refine ih f (by omega) false rest par found g hrest hfN hparN hparK hparB hfd ?_
+                  · refine ih f (by omega) false rest par found g hrest hparK hparB hfd ?_
                     rw [termHgtRef_some hpv]
                     have := termZ_ge H W (termHgt pv) hC g
                     omega
@@ -294,8 +288,8 @@ theorem term_main_step (ctx : TermCtx H W root) (sp : Pos) (rl : Bool) (fuel : N
                 | some cv =>
                   simp only
                   have hkP : PlainKey k := term_lookup_key (by simpa [SafeKeys] using hpvK) hl
-                  obtain ⟨h1, h2, h3, h4⟩ := hchild (.key k)
-                  refine ih f (by omega) false _ _ _ (g + 1) ?_ (P_append_slash hfN hkN) h1 h2 h3 (hfd.key hkP) ?_
+                  obtain ⟨h2, h3, h4⟩ := hchild (.key k)
+                  refine ih f (by omega) false _ _ _ (g + 1) ?_ h2 h3 (hfd.key hkP) ?_
                   · intro t ht
                     simp only [List.mem_cons] at ht
                     rcases ht with rfl | rfl | ht
@@ -330,16 +324,13 @@ theorem term_main_step (ctx : TermCtx H W root) (sp : Pos) (rl : Bool) (fuel : N
             have hS1 := term_plain H W hW root sp rl f false _ (.at sp) slash 0 hupT (fun _ => rfl)
               (TermRef_at ctx.hgt ctx.wd sp) (SafeRef_at ctx.plain sp) (TermFound_slash 0)
               (term_R_enough ctx.hgt sp hupL hRf)
-            have hpost := (find_post (P := NoNew) root ctx.safe f).1 sp false _ (.at sp) rl slash (SafeRef_at ctx.safe sp)
-              (P_upToks hfN) P_slash
             cases hR : findD f root sp false false
                 (((splitChar '/' (fixBr found)).filter (fun t => !t.isEmpty)).dropLast) (.at sp) rl slash with
             | error e => rw [hR] at hS1; exact hS1
             | ok pr =>
               obtain ⟨root', cur⟩ := pr
-              rw [hR] at hS1 hpost
+              rw [hR] at hS1
               obtain ⟨hroot', hgr⟩ := hS1
-              obtain ⟨_, hgood⟩ := hpost
               subst hroot'
               simp only
               cases hcp : valOf root' cur.parent with
@@ -350,11 +341,11 @@ theorem term_main_step (ctx : TermCtx H W root) (sp : Pos) (rl : Bool) (fuel : N
                 | error e => exact TermOut_err (termNxt_err hn)
                 | ok nxt =>
                   simp only
-                  have hnxt : SafeRef NoNew root' nxt ∧ SafeRef PlainKey root' nxt ∧ TermRef H W root' nxt := by
+                  have hnxt : SafeRef PlainKey root' nxt ∧ TermRef H W root' nxt := by
                     rcases termNxt_ref hn with rfl | ⟨s, rfl⟩
-                    · exact ⟨hgood.par, hgr.keys, hgr.par⟩
-                    · exact ⟨SafeRef_child hgood.par _, SafeRef_child hgr.keys _, TermRef_child hgr.par _⟩
-                  obtain ⟨hnN, hnK, hnB⟩ := hnxt
+                    · exact ⟨hgr.keys, hgr.par⟩
+                    · exact ⟨SafeRef_child hgr.keys _, TermRef_child hgr.par _⟩
+                  obtain ⟨hnK, hnB⟩ := hnxt
                   have hhn := termHgtRef_le hnB
                   have hfd' : TermFound (upFound cur) (g + 2 * H) := by
                     refine hgr.upFound.mono ?_
@@ -368,7 +359,7 @@ theorem term_main_step (ctx : TermCtx H W root) (sp : Pos) (rl : Bool) (fuel : N
                       split
                       · rename_i s _
                         simp only [PIdx] at hidxN
-                        refine ih f (by omega) false _ _ _ (g + 2 * H) ?_ hgood.upFound hnN hnK hnB hfd' ?_
+                        refine ih f (by omega) false _ _ _ (g + 2 * H) ?_ hnK hnB hfd' ?_
                         · intro t ht
                           simp only [List.mem_cons] at ht
                           rcases ht with rfl | ht
@@ -381,7 +372,7 @@ theorem term_main_step (ctx : TermCtx H W root) (sp : Pos) (rl : Bool) (fuel : N
                       · exact TermOut_err (by decide)
                     · rename_i htr
                       simp only [htr, Bool.false_eq_true, if_false, termU0] at hfuel
-                      refine ih f (by omega) false _ _ _ (g + 2 * H) hrest hgood.upFound hnN hnK hnB hfd' ?_
+                      refine ih f (by omega) false _ _ _ (g + 2 * H) hrest hnK hnB hfd' ?_
                       have := hC _ _ (g + 2 * H) (g + 2 * H) hhn (Nat.le_refl _)
                       omega
                   · split
@@ -405,7 +396,6 @@ theorem term_main_step (ctx : TermCtx H W root) (sp : Pos) (rl : Bool) (fuel : N
               have hn1 := termN_b1 H W hpos (termPot H W rest) g
               have hn2 := termN_b2 H W hpos (termPot H W rest) g
               have hKK : SafeKeysK PlainKey kvs := by simpa [SafeKeys] using hpvK
-              have hKN : SafeKeysK NoNew kvs := by simpa [SafeKeys] using hpvN
               by_cases hstar : name = ['*']
               · -- `*`: every key, then the same tokens one level lower
                 rw [findD]
@@ -419,7 +409,6 @@ theorem term_main_step (ctx : TermCtx H W root) (sp : Pos) (rl : Bool) (fuel : N
                 intro k hk f' hf' hf'F
                 obtain ⟨f'', rfl⟩ : ∃ f'', f' = f'' + 1 := ⟨f' - 1, by omega⟩
                 have hkP : PlainKey k := SafeKeysK_keys hKK k hk
-                have hkN : NoNew k := SafeKeysK_keys hKN k hk
                 have hkt := hkP.keyTok
                 rw [term_key_dict_step f'' root sp false rl par found k k .none (tok :: rest) c kvs hpv hkt.split hkt.ne hkt.notUp
                   hkt.notStar]
@@ -427,8 +416,8 @@ theorem term_main_step (ctx : TermCtx H W root) (sp : Pos) (rl : Bool) (fuel : N
                 | none => exact ⟨rfl, trivial⟩
                 | some cv =>
                   simp only [List.isEmpty_cons, Bool.false_and, Bool.false_eq_true, if_false, termKeyCont]
-                  obtain ⟨h1, h2, h3, h4⟩ := hchild (.key k)
-                  refine ih f'' (by omega) false (tok :: rest) _ _ (g + 1) htoks (P_append_slash hfN hkN) h1 h2 h3 (hfd.key hkP) ?_
+                  obtain ⟨h2, h3, h4⟩ := hchild (.key k)
+                  refine ih f'' (by omega) false (tok :: rest) _ _ (g + 1) htoks h2 h3 (hfd.key hkP) ?_
                   simp only [termPot, termTokPot, hsplit, hne0, Bool.false_eq_true, if_false, hup]
                   have := termN_mono_h H W _ hC (g + 1) h4
                   omega
@@ -438,21 +427,20 @@ theorem term_main_step (ctx : TermCtx H W root) (sp : Pos) (rl : Bool) (fuel : N
                 | some cv =>
                   simp only
                   have hkP : PlainKey name := term_lookup_key hKK hl
-                  obtain ⟨h1, h2, h3, h4⟩ := hchild (.key name)
-                  have hf' := P_append_slash hfN hnameN
+                  obtain ⟨h2, h3, h4⟩ := hchild (.key name)
                   have hZ := termZ_mono_h H W _ hC (g + 1) h4
                   split
                   · exact ⟨rfl, trivial⟩
                   · cases idx with
                     | none =>
                       simp only [termKeyCont]
-                      refine ih f (by omega) false rest _ _ (g + 1) hrest hf' h1 h2 h3 (hfd.key hkP) ?_
+                      refine ih f (by omega) false rest _ _ (g + 1) hrest h2 h3 (hfd.key hkP) ?_
                       have := termZ_ge H W (termHgtRef root (childRef root par (.key name))) hC (g + 1)
                       omega
                     | str s =>
                       simp only [termKeyCont]
                       simp only [PIdx] at hidxN
-                      refine ih f (by omega) false _ _ _ (g + 1) ?_ hf' h1 h2 h3 (hfd.key hkP) ?_
+                      refine ih f (by omega) false _ _ _ (g + 1) ?_ h2 h3 (hfd.key hkP) ?_
                       · intro t ht
                         simp only [List.mem_cons] at ht
                         rcases ht with rfl | ht
@@ -464,7 +452,7 @@ theorem term_main_step (ctx : TermCtx H W root) (sp : Pos) (rl : Bool) (fuel : N
                     | cond k op v =>
                       simp only [termKeyCont]
                       simp only [PIdx] at hidxN
-                      refine ih f (by omega) false _ _ _ (g + 1) ?_ hf' h1 h2 h3 (hfd.key hkP) ?_
+                      refine ih f (by omega) false _ _ _ (g + 1) ?_ h2 h3 (hfd.key hkP) ?_
                       · intro t ht
                         simp only [List.mem_cons] at ht
                         rcases ht with rfl | ht
